@@ -1410,6 +1410,8 @@ class Builder:
                 t2 = self.info[x]['tags']
                 if not (t2[0][0] == 'f' and t2[0] == t2[1]) or self.kind_of_val(self.plain.env[x]) == 'b':
                     return False
+                if s2 and s2[-1] != int(np.prod(self.grids[int(t2[0][1:])]['dims'])):
+                    return False          # not a valid field any more (fancy-indexed to the length of another grid)
                 return len(s2) in (2, 3) and s2[-1] == n and 1 not in s2[:-1]
             cands = [x for x in self.live() if ok(x)]
             o = ['var', int(rng.choice(cands))] if cands and rng.random() < 0.7 else self.field_lit(g=int(to[1:]), tensor=[[shp[-2]], [shp[-2], 2], [shp[-2], 3]][int(rng.integers(0, 3))])
@@ -1976,7 +1978,7 @@ METHODS = [['scipy'], ['numpy'], ['mkl', 'fftw', 'numpy'], ['mkl', 'scipy', 'fft
 
 def all_combos(full=False):
     """quick: 64 combinations in which every *pair* of switches takes all four settings (nft_pre = mft_pre xor mft_alloc,
-    so the two precompute switches vary independently of each other); thorough: the full product (128)"""
+    so the two precompute switches vary independently of each other); full: the whole product (128; two of the six thorough rounds)"""
     res = []
     for new, emu, pre, alloc, meth in itertools.product([False, True], [True, False], [True, False], [True, False], METHODS):
         for nft in ([True, False] if full else [pre != alloc]):
@@ -2446,10 +2448,11 @@ def oracle(prog, plain, old, new, mixed=None):
     bad = []
     if mixed is None:
         mixed = run_program(prog, 'mixed')
-    for mode, run in (('old', old), ('new', new), ('mixed', mixed)):
+    for mode, run in (('old', old), ('new', new)) + ((('mixed', mixed),) if mixed else ()):
         for key, what in run[2]:
             bad.append((key, what))
-    bad += mixed_oracle(prog, plain, mixed, old, new)
+    if mixed:
+        bad += mixed_oracle(prog, plain, mixed, old, new)
     ptrace, otrace, ntrace = plain[0], old[0], new[0]
     tainted = set()        # a style whose values already went wrong: later differences are consequences
     div = shaped_divergence(old, new)
@@ -3121,8 +3124,12 @@ def check_program(ctx, prog, label):
     plain = run_program(prog, 'plain')
     old = run_program(prog, 'old')
     new = run_program(prog, 'new')
-    mixed = run_program(prog, 'mixed')
-    ctx.count('mixed-style-runs')
+    # the mixed-style run: every program in the quick tier, every second one in the thorough tier (time budget)
+    ctx._nprog = getattr(ctx, '_nprog', 0) + 1
+    mixed = False
+    if ctx.tier != 'thorough' or ctx._nprog % 2 == 0 or label == 'directed':
+        mixed = run_program(prog, 'mixed')
+        ctx.count('mixed-style-runs')
     fails = oracle(prog, plain, old, new, mixed)
     if fails:
         seen = set()
@@ -3180,7 +3187,7 @@ def run(ctx):
                 'dtype classes and exception classes at every statement and in the final read-out of every variable (aliases included); '
                 'every elementwise node with a Field operand must return a Field on that grid; copy/pickle must return an independent equal '
                 'Field. Correspondence: tag (Field+grid / ndarray / scalar), shape, dtype class and values of every observation of each '
-                'style against the matching model route. Pipelines: 20 library computations (incl. hcipy._math.fft called directly on four dtypes) under 64 configuration combinations (every pair of switches in all four settings; thorough: the full product of 128) '
+                'style against the matching model route. Pipelines: 20 library computations (incl. hcipy._math.fft called directly on four dtypes) under 64 configuration combinations (every pair of switches in all four settings; thorough: the full product of 128 in two of six rounds) '
                 'against the default; 8 kinds of Fourier object (MFT 2-D/1-D, FFT 2-D/1-D, FourierFilter, NFT, make_fourier_transform, ZoomFFT) each REUSED over scripted and random call sequences (precision changes, tensor-shape changes, forward/backward) under every relevant switch x field style x backend, every call compared with a fresh object under the same configuration and with the default configuration; NFT / MFT / make_fourier_transform on polar (separated, regular, unstructured) and explicitly or automatically weighted Cartesian grids as input, output or both, under every option combination, forward / backward / transformation matrices against the defining weighted Fourier sum computed by the harness. Non-trivial = at least three statements; distinct by the sequence of statement signatures.')
     ctx.assumptions += ['plain ndarray arithmetic is the reference for the values',
                         'dyadic inputs: results are exact or within 1e-12 of the exact value',
@@ -3228,7 +3235,8 @@ def _run(ctx):
     # pipelines
     default = snapshot_config()
     default = {k: default[k] for k in ('new_style', 'emulate', 'mft_pre', 'mft_alloc', 'nft_pre', 'method')}
-    combos = all_combos(full=(ctx.tier == 'thorough'))
+    combos = all_combos()
+    combos_full = all_combos(full=True)
     names = sorted(_pipelines())
     reps = ctx.scale(1, 6)
     for rep in range(reps):
@@ -3237,7 +3245,7 @@ def _run(ctx):
                       'tilt': dy(rng, -4, 4), 'odd': int(rng.integers(0, 2))}
             if name in ('vortex', 'pyramid', 'perfect'):
                 params['n'] = int(rng.choice([16, 24, 32]))
-            use = combos if (ctx.tier == 'thorough' or name not in ('vortex', 'pyramid', 'atmos', 'perfect')) else \
+            use = (combos_full if rep < 2 else combos) if ctx.tier == 'thorough' else combos if name not in ('vortex', 'pyramid', 'atmos', 'perfect') else \
                 [combos[int(i)] for i in rng.choice(len(combos), size=16, replace=False)]
             bad = check_pipeline(name, params, use, default)
             ctx.count('pipeline-runs', len(use))
